@@ -1,3 +1,4 @@
+use crate::connectivity::traits::in_canonical_order;
 use crate::coordinates::{Point, Vector3D};
 use crate::ff::angles::{HarmonicAngleTypeA, HarmonicAngleTypeB};
 use crate::ff::bonds::HarmonicBond;
@@ -58,7 +59,7 @@ impl UFF {
 
     /// Add a bond stretching term to the FF for all bonds present in a molecule
     fn add_bond_stretches(&mut self, molecule: &Molecule) {
-        for bond in molecule.bonds() {
+        for bond in in_canonical_order(molecule.bonds()) {
             let i = bond.pair.i;
             let j = bond.pair.j;
             let r0 = self.r0(i, j, bond.order.value());
@@ -99,7 +100,7 @@ impl UFF {
 
     /// Add a term for an angle bend
     fn add_angle_bends(&mut self, molecule: &Molecule) {
-        for angle in molecule.angles() {
+        for angle in in_canonical_order(molecule.angles()) {
             let i = angle.i;
             let j = angle.j;
             let k = angle.k;
@@ -164,7 +165,7 @@ impl UFF {
 
     /// Add dihedral terms between quadruples bonded atoms in a sequence
     fn add_dihedral_torsions(&mut self, molecule: &Molecule) {
-        for dihedral in molecule.proper_dihedrals().iter() {
+        for dihedral in in_canonical_order(molecule.proper_dihedrals()) {
             let i = dihedral.i;
             let j = dihedral.j;
             let k = dihedral.k;
@@ -199,7 +200,7 @@ impl UFF {
 
     /// Add terms for distortions from (trigonal) pyramidal geometries
     fn add_dihedral_inversions(&mut self, molecule: &Molecule) {
-        for improper in molecule.improper_dihedrals().iter() {
+        for improper in in_canonical_order(molecule.improper_dihedrals()) {
             let mut dihedral = InversionDihedral {
                 c: improper.c,
                 i: improper.i,
